@@ -122,7 +122,7 @@ def neighbourhood(x):
     return out
 
 
-def run_sexa(rep, at):
+def run_sexa(rep, at, pid='C17'):
     for kind, h, lo, hi in (('dms', h_dms(at), -90, 90), ('hms', h_hms(at), 0, 360)):
         rep.kernel('K-sexa-' + kind, functions=[F + ':dec2%s' % kind, F + ':dec2dec', F + ':ra2dec'],
                    bounds='all real x in [%d,%d%s; decimal rounding of the printed fields modelled as a fresh decimal within half a last digit (ties either way)' % (lo, hi, ']' if kind == 'dms' else ')'),
@@ -140,12 +140,12 @@ def run_sexa(rep, at):
                             continue
                         bad, cls, detail = oracle_sexa(kind, xf)
                         if bad:
-                            rep.finding('C17/K-sexa/dec2%s:%s' % (kind, cls), dict(kind=kind, x=xf, model_x=str(x), obligation=ob['name']),
+                            rep.finding('%s/K-sexa/dec2%s:%s' % (pid, kind, cls), dict(kind=kind, x=xf, model_x=str(x), obligation=ob['name']),
                                         'dec2%s(%r) = %s violates %s' % (kind, xf, detail, cls))
                             got = True
                             break
                     if not got:
-                        rep.finding('C17/K-sexa/%s' % ob['name'], dict(kind=kind, x=float(x)), 'model x=%s' % x, reproduced=False)
+                        rep.finding('%s/K-sexa/%s' % (pid, ob['name']), dict(kind=kind, x=float(x)), 'model x=%s' % x, reproduced=False)
             if r['out']:
                 rep.sample(dict(kernel='K-sexa-' + kind, path=r['trace'], format_specs=r['out'], obligations=[(o['name'], o['result']) for o in r['obligations']]))
         rep.end_kernel()
